@@ -493,6 +493,12 @@ class Inliner:
 
             def make(v):
                 return [ast.copy_location(ast.Return(value=v), st)]
+        elif isinstance(st, ast.Expr) and isinstance(st.value, ast.Yield) and isinstance(st.value.value, ast.Call):
+            # `yield helper(args)`: the helper's statements, then the yield of its result
+            call = st.value.value
+
+            def make(v):
+                return [ast.copy_location(ast.Expr(value=ast.copy_location(ast.Yield(value=v if v is not None else ast.Constant(value=None)), st)), st)]
         if call is None:
             return None
         h, recv = self.resolve(call, local_defs)
@@ -903,6 +909,10 @@ def sentinel_loops(fnode):
             local_defs[st.name] = st
         if isinstance(st, ast.Assign) and len(st.targets) == 1 and isinstance(st.targets[0], ast.Name) and isinstance(st.value, ast.Lambda):
             local_defs[st.targets[0].id] = st.value
+        if isinstance(st, ast.Assign) and len(st.targets) == 1 and isinstance(st.targets[0], ast.Name) and isinstance(st.value, ast.Call) \
+                and norm(st.value.func) in ('functools.partial', 'partial') and st.value.args:
+            # P = functools.partial(f, args): bound once (a second binding of the name makes it unknown)
+            local_defs[st.targets[0].id] = None if st.targets[0].id in local_defs else st.value
 
     def stop_test(t, var):
         s = norm(t)
@@ -935,7 +945,9 @@ def sentinel_loops(fnode):
                 p, sent = st.iter.args
                 if isinstance(sent, ast.Constant) and sent.value is None:
                     call = None
-                    if isinstance(p, ast.Name) and p.id in local_defs:
+                    if isinstance(p, ast.Name) and isinstance(local_defs.get(p.id), ast.Call):
+                        p = local_defs[p.id]
+                    if isinstance(p, ast.Name) and local_defs.get(p.id) is not None:
                         d = local_defs[p.id]
                         e = d.body if isinstance(d, ast.Lambda) else (
                             d.body[-1].value if d.body and isinstance(d.body[-1], ast.Return) and
@@ -1254,6 +1266,71 @@ def unroll_const_loops(fnode, consts=None, limit=8, table_nodes=None):
             return c
     fn.body = rewrite(fn.body)
     fn = G().visit(fn)
+    ast.fix_missing_locations(fn)
+    return fn
+
+
+def enum_members_to_locals(fnode, module):
+    """`class S(enum.Enum): A = 'a'; B = 'b'` at module level and `S.A`, `S.B` in the function: the members are distinct named constants.
+    Where they are only compared, assigned and -- when the class says `def __str__(self): return self.value` -- formatted, they are
+    read as locals `S_A = 'a'` bound at the top of the function (what the code looked like before someone introduced the enum).
+    Conditions: the class derives from enum.Enum only, its members are string constants with pairwise different values, and the
+    function uses the class through member access only."""
+    enums = {}
+    for cname, cnode in module.classes.items():
+        if '.' in cname or not any(norm(b) in ('enum.Enum', 'Enum') for b in cnode.bases) or len(cnode.bases) != 1:
+            continue
+        members, ok = {}, True
+        str_is_value = False
+        for st in cnode.body:
+            if isinstance(st, ast.Expr) and isinstance(st.value, ast.Constant):
+                continue
+            if isinstance(st, ast.Assign) and len(st.targets) == 1 and isinstance(st.targets[0], ast.Name) and isinstance(st.value, ast.Constant) and isinstance(st.value.value, str):
+                members[st.targets[0].id] = st.value.value
+            elif isinstance(st, ast.FunctionDef) and st.name == '__str__':
+                body = [b for b in st.body if not (isinstance(b, ast.Expr) and isinstance(b.value, ast.Constant))]
+                str_is_value = len(body) == 1 and isinstance(body[0], ast.Return) and body[0].value is not None and norm(body[0].value) == 'self.value'
+                ok = ok and str_is_value
+            else:
+                ok = False
+        if ok and members and len(set(members.values())) == len(members):
+            enums[cname] = (members, str_is_value)
+    if not enums:
+        return fnode
+    fn = clone(fnode)
+    used = {}
+    bad = set()
+    par = {}
+    for n in ast.walk(fn):
+        for c in ast.iter_child_nodes(n):
+            par[id(c)] = n
+    for n in ast.walk(fn):
+        if isinstance(n, ast.Name) and n.id in enums:
+            up = par.get(id(n))
+            if not (isinstance(up, ast.Attribute) and up.value is n and up.attr in enums[n.id][0] and isinstance(up.ctx, ast.Load)):
+                bad.add(n.id)
+    formatted = any(isinstance(n, ast.BinOp) and isinstance(n.op, ast.Mod) and isinstance(n.left, ast.Constant) and isinstance(n.left.value, str) for n in ast.walk(fn)) \
+        or any(isinstance(n, (ast.JoinedStr,)) for n in ast.walk(fn)) or any(isinstance(n, ast.Call) and norm(n.func) in ('str', 'repr', 'format') for n in ast.walk(fn))
+
+    class R(ast.NodeTransformer):
+        def visit_Attribute(self, n):
+            if isinstance(n.value, ast.Name) and n.value.id in enums and n.value.id not in bad and n.attr in enums[n.value.id][0] \
+                    and (enums[n.value.id][1] or not formatted):
+                nm = '%s_%s' % (n.value.id.strip('_'), n.attr)
+                used[nm] = enums[n.value.id][0][n.attr]
+                return ast.copy_location(ast.Name(id=nm, ctx=ast.Load()), n)
+            return self.generic_visit(n)
+    fn = R().visit(fn)
+    if not used:
+        return fnode
+    taken = {n.id for n in ast.walk(fnode) if isinstance(n, ast.Name)} | {a.arg for a in fnode.args.args}
+    if taken & set(used):
+        return fnode
+    k = 1 if fn.body and isinstance(fn.body[0], ast.Expr) and isinstance(fn.body[0].value, ast.Constant) else 0
+    pre = [ast.Assign(targets=[ast.Name(id=nm, ctx=ast.Store())], value=ast.Constant(value=v)) for nm, v in sorted(used.items())]
+    for st in pre:
+        ast.copy_location(st, fn.body[k] if len(fn.body) > k else fn)
+    fn.body[k:k] = pre
     ast.fix_missing_locations(fn)
     return fn
 
@@ -1617,6 +1694,192 @@ def mode_variable_to_nested_loop(fnode):
         set_parents(fn)
         return fn
     return None
+
+
+def list_accumulator_to_string(fnode):
+    """a local list that collects pieces of text and is only ever read through `SEP.join(L)` with ONE constant separator:
+         L = [a]          ->  L = a
+         L.append(x)      ->  L = L + SEP + x
+         SEP.join(L)      ->  L
+    The list is never empty where it is joined (it is created with one element and only grows), so the joined text is the pieces
+    with the separator between them -- the string accumulator the list abbreviates.  Applies only when every use of L is one of
+    these three forms."""
+    fn = clone(fnode)
+    cands = {}
+    for n in ast.walk(fn):
+        if isinstance(n, ast.Assign) and len(n.targets) == 1 and isinstance(n.targets[0], ast.Name) and isinstance(n.value, ast.List) and len(n.value.elts) == 1 \
+                and not isinstance(n.value.elts[0], ast.Starred):
+            cands.setdefault(n.targets[0].id, []).append(n)
+    done = False
+    for name in sorted(cands):
+        seps = set()
+        ok = True
+        uses = 0
+        empties = []
+        par = {}
+        for n in ast.walk(fn):
+            for c in ast.iter_child_nodes(n):
+                par[id(c)] = n
+        for n in ast.walk(fn):
+            if not (isinstance(n, ast.Name) and n.id == name):
+                continue
+            up = par.get(id(n))
+            if isinstance(n.ctx, ast.Store):
+                if isinstance(up, ast.Assign) and len(up.targets) == 1 and isinstance(up.value, ast.List) and not up.value.elts and up in fn.body:
+                    # `L = []` at the top of the function, before the first `L = [a]`: a placeholder (nothing is joined before the list
+                    # has been given its first piece, or the code would write a text it never collected)
+                    empties.append(up)
+                    continue
+                if not (isinstance(up, ast.Assign) and up in cands[name]):
+                    ok = False
+                continue
+            up2 = par.get(id(up)) if up is not None else None
+            if isinstance(up, ast.Attribute) and up.attr == 'append' and isinstance(up2, ast.Call) and up2.func is up and len(up2.args) == 1 and not up2.keywords \
+                    and isinstance(par.get(id(up2)), ast.Expr):
+                uses += 1
+            elif isinstance(up, ast.Call) and isinstance(up.func, ast.Attribute) and up.func.attr == 'join' and isinstance(up.func.value, ast.Constant) \
+                    and isinstance(up.func.value.value, str) and up.args == [n] and not up.keywords:
+                seps.add(up.func.value.value)
+                uses += 1
+            else:
+                ok = False
+        if not ok or len(seps) != 1 or not uses:
+            continue
+        sep = seps.pop()
+
+        class T(ast.NodeTransformer):
+            def visit_Assign(self, st):
+                self.generic_visit(st)
+                if len(st.targets) == 1 and isinstance(st.targets[0], ast.Name) and st.targets[0].id == name and isinstance(st.value, ast.List) and len(st.value.elts) == 1:
+                    st.value = st.value.elts[0]
+                elif len(st.targets) == 1 and isinstance(st.targets[0], ast.Name) and st.targets[0].id == name and isinstance(st.value, ast.List) and not st.value.elts:
+                    st.value = ast.copy_location(ast.Constant(value=''), st.value)
+                return st
+
+            def visit_Expr(self, st):
+                c = st.value
+                if isinstance(c, ast.Call) and isinstance(c.func, ast.Attribute) and c.func.attr == 'append' and isinstance(c.func.value, ast.Name) and c.func.value.id == name:
+                    arg = self.visit(c.args[0])
+                    new = ast.BinOp(left=ast.BinOp(left=ast.Name(id=name, ctx=ast.Load()), op=ast.Add(), right=ast.Constant(value=sep)), op=ast.Add(), right=arg)
+                    return ast.copy_location(ast.Assign(targets=[ast.Name(id=name, ctx=ast.Store())], value=new), st)
+                return self.generic_visit(st)
+
+            def visit_Call(self, c):
+                if isinstance(c.func, ast.Attribute) and c.func.attr == 'join' and isinstance(c.func.value, ast.Constant) and len(c.args) == 1 \
+                        and isinstance(c.args[0], ast.Name) and c.args[0].id == name:
+                    return ast.copy_location(ast.Name(id=name, ctx=ast.Load()), c)
+                return self.generic_visit(c)
+        fn = T().visit(fn)
+        done = True
+    if not done:
+        return fnode
+    ast.fix_missing_locations(fn)
+    return fn
+
+
+def genexp_loop_fusion(fnode):
+    """`for x in (E for y in IT if C): BODY` -- the generator expression given in place, or through a local that is bound once to it
+    and read once, as this loop's iterable -- is `for y in IT: if not C: continue; x = E; BODY`: a generator expression is consumed
+    item by item, each item computed when the loop asks for it."""
+    fn = clone(fnode)
+    stores = {}
+    loads = {}
+    for n in ast.walk(fn):
+        if isinstance(n, ast.Name):
+            (stores if isinstance(n.ctx, ast.Store) else loads).setdefault(n.id, []).append(n)
+    binds = {}
+    for st in fn.body:
+        if isinstance(st, ast.Assign) and len(st.targets) == 1 and isinstance(st.targets[0], ast.Name) and isinstance(st.value, ast.GeneratorExp) \
+                and len(stores.get(st.targets[0].id, [])) == 1 and len(loads.get(st.targets[0].id, [])) == 1:
+            binds[st.targets[0].id] = st
+    changed = [False]
+    used_binds = set()
+
+    def fuse(stmts):
+        out = []
+        for st in stmts:
+            for fld in ('body', 'orelse', 'finalbody'):
+                if isinstance(getattr(st, fld, None), list) and not isinstance(st, (ast.FunctionDef, ast.AsyncFunctionDef, ast.ClassDef)):
+                    setattr(st, fld, fuse(getattr(st, fld)))
+            for h in getattr(st, 'handlers', []) or []:
+                h.body = fuse(h.body)
+            if isinstance(st, ast.For) and not st.orelse:
+                g = st.iter
+                via = None
+                if isinstance(g, ast.Name) and g.id in binds:
+                    via = g.id
+                    g = binds[g.id].value
+                if isinstance(g, ast.GeneratorExp) and len(g.generators) == 1 and not g.generators[0].is_async:
+                    gen = g.generators[0]
+                    inner_names = {n.id for n in ast.walk(gen.target) if isinstance(n, ast.Name)}
+                    body_stores = {n.id for b in st.body for n in ast.walk(b) if isinstance(n, ast.Name) and isinstance(n.ctx, ast.Store)}
+                    if not (inner_names & body_stores) and not (inner_names & {n.id for n in ast.walk(st.target) if isinstance(n, ast.Name)}):
+                        pre = [ast.copy_location(ast.If(test=ast.UnaryOp(op=ast.Not(), operand=c), body=[ast.Continue()], orelse=[]), st) for c in gen.ifs]
+                        pre.append(ast.copy_location(ast.Assign(targets=[st.target], value=g.elt), st))
+                        st = ast.copy_location(ast.For(target=gen.target, iter=gen.iter, body=pre + st.body, orelse=[]), st)
+                        changed[0] = True
+                        if via:
+                            used_binds.add(via)
+            out.append(st)
+        return out
+    fn.body = fuse(fn.body)
+    if not changed[0]:
+        return fnode
+    fn.body = [st for st in fn.body if not (isinstance(st, ast.Assign) and len(st.targets) == 1 and isinstance(st.targets[0], ast.Name) and st.targets[0].id in used_binds
+                                             and isinstance(st.value, ast.GeneratorExp))]
+    ast.fix_missing_locations(fn)
+    return fn
+
+
+def block_copy_propagation(fnode):
+    """inside one block: after `k = K` (a plain name copied into a plain name) the statements that follow in the same block read K
+    where they read k, until k or K is stored again.  (Glue left behind by fusing a generator into its consumer.)"""
+    fn = clone(fnode)
+
+    def stores_of(st):
+        return {n.id for n in ast.walk(st) if isinstance(n, ast.Name) and isinstance(n.ctx, (ast.Store, ast.Del))} | \
+               {n.name for n in ast.walk(st) if isinstance(n, (ast.FunctionDef, ast.ClassDef))}
+
+    def block(stmts):
+        copies = {}
+        out = []
+        for st in stmts:
+            for fld in ('body', 'orelse', 'finalbody'):
+                if isinstance(getattr(st, fld, None), list) and not isinstance(st, (ast.FunctionDef, ast.AsyncFunctionDef, ast.ClassDef)):
+                    setattr(st, fld, block(getattr(st, fld)))
+            for h in getattr(st, 'handlers', []) or []:
+                h.body = block(h.body)
+            if copies and not isinstance(st, (ast.FunctionDef, ast.AsyncFunctionDef, ast.ClassDef)):
+                simple = not any(isinstance(getattr(st, fld, None), list) for fld in ('body', 'orelse', 'finalbody'))
+                if simple:
+                    st = _Rename({}, {k: ast.Name(id=v, ctx=ast.Load()) for k, v in copies.items()}).visit(st)
+            killed = stores_of(st)
+            copies = {k: v for k, v in copies.items() if k not in killed and v not in killed}
+            if isinstance(st, ast.Assign) and len(st.targets) == 1 and isinstance(st.targets[0], ast.Name) and isinstance(st.value, ast.Name) \
+                    and st.targets[0].id != st.value.id:
+                copies[st.targets[0].id] = st.value.id
+            out.append(st)
+        return out
+    fn.body = block(fn.body)
+    # copies nobody reads any more are dropped
+    loaded = {n.id for n in ast.walk(fn) if isinstance(n, ast.Name) and isinstance(n.ctx, ast.Load)}
+
+    def prune(stmts):
+        out = []
+        for st in stmts:
+            for fld in ('body', 'orelse', 'finalbody'):
+                if isinstance(getattr(st, fld, None), list) and not isinstance(st, (ast.FunctionDef, ast.AsyncFunctionDef, ast.ClassDef)):
+                    setattr(st, fld, prune(getattr(st, fld)) or [ast.copy_location(ast.Pass(), st)])
+            for h in getattr(st, 'handlers', []) or []:
+                h.body = prune(h.body) or [ast.copy_location(ast.Pass(), h)]
+            if isinstance(st, ast.Assign) and len(st.targets) == 1 and isinstance(st.targets[0], ast.Name) and isinstance(st.value, ast.Name) \
+                    and st.targets[0].id not in loaded:
+                continue
+            out.append(st)
+        return out
+    fn.body = prune(fn.body)
+    ast.fix_missing_locations(fn)
+    return fn
 
 
 def split_tuple_assign(fnode):
